@@ -55,10 +55,12 @@ pub fn make_corpus(seed: u64, n: usize, with_cut: bool) -> Vec<Value> {
 pub fn replay_entry(e: &Value) -> Result<String, String> {
     let choices: Vec<u16> = e["choices"].as_array().ok_or("choices")?.iter().map(|x| x.as_u64().unwrap_or(0) as u16).collect();
     let with_cut = e["cut"].as_bool().unwrap_or(false);
-    let expected = e["answers"].as_u64().unwrap_or(0) as usize;
+    // regression entries carry no count: their answer count is whatever the current tree gives
+    let expected_opt = e["answers"].as_u64().map(|x| x as usize);
     let kind = e["kind"].as_str().unwrap_or("");
     let p = decode(&choices, with_cut);
     let run = run_program(&p, 20, 2, u64::MAX).map_err(|f| format!("{:?}", f))?;
+    let expected = expected_opt.unwrap_or(run.answers.len());
     if run.answers.len() != expected { return Err(format!("answer count {} differs from the native run's {}", run.answers.len(), expected)); }
     let mut did = format!("enumerated {} answers + 2 re-asks", expected);
     match kind {
